@@ -41,8 +41,18 @@ def mk_cfg(case):
         v = case[f]
         kw[f] = [float(x) for x in v] if isinstance(v, list) else (None if v is None else float(v))
     kw["z0"] = None if case["z0"] is None else float(case["z0"])
-    kw["timestamps"] = None if case["ts"] is None else ["t%d" % t for t in case["ts"]]
+    kw["timestamps"] = None if case["ts"] is None else ts_container(["t%d" % t for t in case["ts"]], case.get("ts_kind"))
     return MetConfig(**kw)
+
+
+def ts_container(labels, kind):
+    """the timestamps in the container a caller may hold them in: a list (YAML), a tuple, a numpy array of strings (the values of a
+    data-frame index); which one it is does not change what the i-th timestamp is or how many there are"""
+    if kind == "tuple":
+        return tuple(labels)
+    if kind == "ndarray":
+        return np.array(labels)
+    return labels
 
 
 def impl_line(case, nq):
@@ -63,7 +73,12 @@ def impl_line(case, nq):
         def sh(x):
             return "N" if x is None else str(int(x))
         ts = s["timestamp"]
-        tss = ts if isinstance(ts, str) else "i%d" % ts
+        if isinstance(ts, str):
+            tss = str(ts)
+        elif isinstance(ts, (int, np.integer)) and not isinstance(ts, bool):
+            tss = "i%d" % ts
+        else:
+            tss = "X:" + repr(ts)[:40].replace(" ", "")      # neither a label nor an index: whatever it is, the model will not agree
         z0 = sh(s["z0"]) if "z0" in s else "N"
         out += " | %s %s %s %s %s %s" % (sh(s["ustar"]), sh(s["mol"]), sh(s["wind_speed"]), sh(s["wind_dir"]), z0, tss)
     return out
@@ -144,7 +159,7 @@ def o_met(case):
     if case["z0"] is not None:
         raw["met"]["z0"] = float(case["z0"])
     if case["ts"] is not None:
-        raw["met"]["timestamps"] = ["t%d" % t for t in case["ts"]]
+        raw["met"]["timestamps"] = ts_container(["t%d" % t for t in case["ts"]], case.get("ts_kind"))
     try:
         cfg = parse_config_dict(raw)
         got2 = True
@@ -199,13 +214,24 @@ def run(rng, tier, deep):
     for k, c in enumerate(cases):
         cc = dict(c, driver=(k % 7 == 0))
         run_oracle(st, o_met, cc)
+    # timestamps held in a tuple / a numpy array instead of a list: every case that has timestamps once more (alternating kinds)
+    withts = [c for c in cases if c["ts"] is not None]
+    for k, c in enumerate(withts):
+        cc = dict(c, ts_kind=("tuple", "ndarray")[k % 2])
+        imp = impl_line(cc, nq)
+        o = outs[cases.index(c)] if k % 5 == 0 else None
+        if o is not None:
+            st["corr_cases"] += 1
+            if imp != o.strip():
+                st["disagreements"].append(dict(what="met (%s timestamps): impl `%s` vs model `%s`" % (cc["ts_kind"], imp[:120], o[:120]), op=op(c, nq)))
+        run_oracle(st, o_met, cc)
     # object re-use: every 3rd case once more, on a MetConfig object that held another forcing before
     for k in range(0, len(cases), 3):
         prev = cases[int(rng.integers(len(cases)))]
         cc = dict(cases[k], prev={kk: vv for kk, vv in prev.items() if kk != "prev"})
         run_oracle(st, o_met, cc)
     res = finish(st, "EXHAUSTIVE on the stated space: 2^4 list/scalar patterns x lengths 1..4 (+ one mismatched length per list field) x timestamps "
-                 "absent/right/wrong/length-1 x ustar/z0/both/neither; correspondence of validate, n_timesteps and get_step(0..5) incl. IndexError; "
+                 "absent/right/wrong/length-1 (as a list, and again as a tuple / numpy array) x ustar/z0/both/neither; correspondence of validate, n_timesteps and get_step(0..5) incl. IndexError; "
                  "oracle: independent statement of the property through MetConfig and parse_config_dict, the timeseries driver's loop count, and MetConfig objects re-used for a second forcing", deep, 0)
     res["exhaustive"] = True
     return res
